@@ -95,4 +95,27 @@ pub fn var_lookup_probe<S: Src>(s: &mut S) {
     }
 }
 
-registry!("c04", var_lookup_probe, arity_eval, arity_eval_relaxed, arity_eval_vec_1, arity_eval_vec_2, arity_eval_vec_3, arity_eval_iter_1, arity_eval_iter_2, arity_eval_iter_3);
+/// native-only, for exhaustive enumeration: exactly N tokens, each one of the 12 names or a number
+fn var_lookup<S: Src, const N: usize>(s: &mut S) {
+    const NAMES: [&str; 12] = ["a", "b", "B", "a1", "_a", "α", "ab", " a", "x y", "👍+👎", "Z", "aa"];
+    let mut toks: Vec<ParsedToken<'static, i32>> = vec![];
+    let mut used: Vec<&'static str> = vec![];
+    for _ in 0..N {
+        let c = s.choice(13) as usize;
+        if c == 12 { toks.push(ParsedToken::Num(1)); } else { toks.push(ParsedToken::Var(NAMES[c])); used.push(NAMES[c]); }
+    }
+    let vars = find_parsed_vars(&toks);
+    let mut expect: Vec<&str> = used.clone();
+    expect.sort();
+    expect.dedup();
+    assert!(vars.len() == expect.len() && vars.iter().zip(expect.iter()).all(|(a, b)| a == b), "C04 the variables are the distinct names in Rust string order");
+    for (i, nm) in expect.iter().enumerate() {
+        assert!(find_var_index(nm, &vars) == i, "C04 a name is looked up at its position in the sorted list");
+    }
+}
+pub fn var_lookup_3<S: Src>(s: &mut S) { var_lookup::<S, 3>(s) }
+pub fn var_lookup_5<S: Src>(s: &mut S) { var_lookup::<S, 5>(s) }
+pub fn var_lookup_6<S: Src>(s: &mut S) { var_lookup::<S, 6>(s) }
+pub fn var_lookup_7<S: Src>(s: &mut S) { var_lookup::<S, 7>(s) }
+
+registry!("c04", var_lookup_3, var_lookup_5, var_lookup_6, var_lookup_7, var_lookup_probe, arity_eval, arity_eval_relaxed, arity_eval_vec_1, arity_eval_vec_2, arity_eval_vec_3, arity_eval_iter_1, arity_eval_iter_2, arity_eval_iter_3);
